@@ -372,6 +372,18 @@ pub fn emit_state(out: &mut impl Write, vi: usize, st: &RawState, pieces: &[Vec<
                 for o in 0..32usize {
                     if o & 16 != 0 && res[o] == "err:BucketsAreHalfEmpty" { mono = false; }
                 }
+                // length error <=> published validity is an error for the mode and small inputs are
+                // not explicitly allowed (too large is never waivable)
+                use tlsh::length::{DataLengthProcessingMode as M, DataLengthValidity as V};
+                let plen = g.processed_len().unwrap_or(u32::MAX);
+                let val = match VARIANT_BUCKETS[vi] { 48 => V::new::<48>(plen), 128 => V::new::<128>(plen), _ => V::new::<256>(plen) };
+                for o in 0..32usize {
+                    let mode = if o & 1 != 0 { M::Conservative } else { M::Optimistic };
+                    let expect = val.is_err_on(mode) && !((o & 4 != 0) && val != V::TooLarge);
+                    let is_len_err = res[o] == "err:TooLargeInput" || res[o] == "err:TooSmallInput";
+                    if expect != is_len_err { mono = false; }
+                    if val == V::TooLarge && res[o] != "err:TooLargeInput" { mono = false; }
+                }
             }
             (lens, post, res, undisturbed && mono)
         });
@@ -731,5 +743,62 @@ pub fn stream_huge(out: &mut impl Write, which: usize) {
         .collect();
     for h in handles {
         writeln!(out, "{}", h.join().unwrap()).unwrap();
+    }
+}
+
+
+// ---------------------------------------------------------------------------
+// a single update() piece of 4 GiB or more (C03 / C11): the state is placed just
+// below MAX_LEN through the hook, so the correct code consumes only a few bytes
+// of the (lazily zeroed) giant slice.
+// ---------------------------------------------------------------------------
+
+pub fn stream_hugepiece(out: &mut impl Write, seed: u64) {
+    let mut rng = Rng::new(seed, 6);
+    let sizes: [usize; 3] = [1usize << 32, (1usize << 32) + 256, (1usize << 32) + 1000];
+    let big: Vec<u8> = vec![0u8; sizes[2]]; // calloc: pages are mapped lazily
+    for (i, &n) in sizes.iter().enumerate() {
+        for room in [5u32, 300, 1000] {
+            let vi = (i + room as usize) % 5;
+            let len0 = (u32::MAX - 3) - room;
+            let tail0 = rng.bytes(4);
+            let npre = rng.below(3) as usize;
+            let pre = rng.bytes(npre);
+            with_variant!(vi, T => {
+                let r = guarded(|| {
+                    let phys = phys_buckets(vi);
+                    let mut g = Generator::<T>::new();
+                    g.verif_set_state(&vec![0u32; phys], &[0u8; 3], &tail0, len0);
+                    let mut obs = Vec::new();
+                    g.update(&pre);
+                    obs.push(core_obs(&g));
+                    g.update(&big[..n]);
+                    obs.push(core_obs(&g));
+                    let too_large = matches!(g.finalize_with_options(&options_from_bits(28)), Err(tlsh::GeneratorError::TooLargeInput));
+                    // direct oracle (C03): the same bytes in two pieces of about 2 GiB each
+                    let mut g1 = Generator::<T>::new();
+                    g1.verif_set_state(&vec![0u32; phys], &[0u8; 3], &tail0, len0);
+                    g1.update(&pre);
+                    g1.update(&big[..n / 2]);
+                    g1.update(&big[n / 2..n]);
+                    let same = full_state(&g) == full_state(&g1);
+                    (obs, too_large, same)
+                });
+                let head = format!("core {} {} {} {},Z{}", vi, len0, hex(&tail0), if pre.is_empty() { ".".to_string() } else { hex(&pre) }, n);
+                match r {
+                    Ok((obs, tl, same)) => {
+                        writeln!(out, "{} => {} toolarge={}", head, join(&obs, ","), tl as u8).unwrap();
+                        if !same {
+                            writeln!(out, "ORACLE C03 one-huge-piece-differs-from-two-pieces {}", head).unwrap();
+                            writeln!(out, "ORACLE C11 one-huge-piece-differs-from-two-pieces {}", head).unwrap();
+                        }
+                    }
+                    Err(()) => {
+                        writeln!(out, "{} => panic", head).unwrap();
+                        writeln!(out, "ORACLE C11 generator-panicked {}", head).unwrap();
+                    }
+                }
+            });
+        }
     }
 }
